@@ -244,6 +244,14 @@ def write_evidence(ctx, level, extra_cov=None, technique=None):
         cov.update(extra_cov)
     if not cov['samples']:
         cov['samples'] = ['(no case generated)']
+    if not ctx.assumptions:
+        # what the check assumes / trusts: the note of its MANIFEST entry
+        try:
+            mf = json.load(open(os.path.join(VERIF, 'tools', 'props', ctx.prop.lower() + '.manifest.json')))
+            ctx.assumptions = [mf.get('note', '')] + ['third-party code is modelled or recorded as transcripts with checked '
+                                                      'contracts, never axiomatised (DESIGN.md 2.6, 8.2, 10)']
+        except (OSError, ValueError):
+            pass
     ev = {
         'property_id': ctx.prop,
         'tier': ctx.tier,
